@@ -56,6 +56,8 @@ def _strategy(kinds):
                 "dt_frac": draw(gen.floats(0.05, 2.0, 32)),
                 "steps": draw(st.sampled_from([1, 1, 1, 1, 2])),
                 "fs_as_list": draw(st.booleans()),
+                # dt = sim.compute_stable_timestep(frac) right before each step (the idiom of every example) or the harness' own
+                "dt_from_sim": draw(st.booleans()),
             }
 
         return case()
@@ -106,6 +108,10 @@ def _body(case, ctx):
         w0 = prim.astype(np.float64).copy()
         u0 = sim.velocity_field.astype(np.float64).copy()
         t0 = sim.time
+        if case.get("dt_from_sim", False):
+            umax_now = float(np.max(np.sum(np.abs(u0), axis=0)))
+            with ctx.repo_call("compute_stable_timestep"):
+                dt = simcfg.choose_dt(sim, cfg, dx, umax_now, case["dt_frac"], True)
         if is_ns:
             f0 = sim.eul_grid_forcing_field.astype(np.float64).copy() if cfg["with_forcing"] else None
             want = ref.ns_step(cfg, dx, dt, w0, u0, f0, fs)
@@ -133,7 +139,7 @@ def _body(case, ctx):
             nontrivial = nontrivial or (bool(np.any(w0)) and pos)
         if sim.time != t0 + dt:
             raise Violation(f"simulator time {sim.time!r} != t0 + dt = {t0 + dt!r} {desc}")
-    labels = simcfg.config_labels(cfg) + [f"steps{case['steps']}"]
+    labels = simcfg.config_labels(cfg) + [f"steps{case['steps']}", "dt_from_simulator" if case.get("dt_from_sim") else "dt_from_harness"]
     ctx.note(nontrivial=nontrivial, labels=labels)
 
 
